@@ -9,7 +9,7 @@ namespace ExprModel.Refine
 open ExprModel
 open ExprModel.Spec
 
-variable {c : Cfg} {P : Prog} {ctx : Ctx}
+variable {c : Cfg} {P : LProg} {ctx : Ctx}
 
 /-- what a strict binary operator does with its two operand values -/
 def binTail (c : SCfg) (op : String) (l r : Node) (a b : Val) : SM Val :=
@@ -55,15 +55,20 @@ theorem eval_binary_strict (sc : SCfg) {m : Meta} {op : String} {l r : Node}
   simp only [h1, h2, Bool.false_eq_true, if_false]
   rfl
 
+/-- what the opcodes of a strict binary operator (emitted at location `loc`) have to do with the two operand values -/
+def TailOK (c : Cfg) (P : LProg) (loc : Loc) (op : String) (l r : Node) (tail : List LInstr) : Prop :=
+  ∀ (k : Nat) (st : List Val) (scs : List Scope) (σ : SState) (a b : Val) (res : R Val) (σ' : SState),
+    CodeAt P k tail → binTail (specOf c) op l r a b σ = (res, σ') → RBlame P loc res →
+    Runs c P (vm k (b :: a :: st) scs σ c.budget) (outcome res (k + lsize tail) st scs σ' c.budget)
+
 /-- both operands, then `tail` on the two values -/
 theorem sim_binary_strict {m : Meta} {op : String} {l r : Node} {cl cr tail : List LInstr}
     (hl : Sim c P ctx l cl) (hr : Sim c P ctx r cr)
     (h1 : (op == "and" || op == "&&") = false) (h2 : (op == "or" || op == "||") = false)
-    (htail : ∀ (k : Nat) (st : List Val) (scs : List Scope) (σ : SState) (a b : Val) (res : R Val) (σ' : SState),
-      CodeAt P k tail → binTail (specOf c) op l r a b σ = (res, σ') →
-      Runs c P (vm k (b :: a :: st) scs σ c.budget) (outcome res (k + lsize tail) st scs σ' c.budget)) :
+    (htail : TailOK c P m.loc op l r tail) (hbl : BlameOK c P (.binary m op l r)) :
     Sim c P ctx (.binary m op l r) (cl ++ cr ++ tail) := by
   intro k st scs σ res σ' hcode hsc hev
+  have hev0 := hev
   rw [eval_binary_strict _ h1 h2] at hev
   rcases SM.bind_cases hev with ⟨e, hle, rfl⟩ | ⟨a, σ1, hlv, hrest⟩
   · exact hl k st scs σ _ _ hcode.left.left hsc hle
@@ -71,13 +76,7 @@ theorem sim_binary_strict {m : Meta} {op : String} {l r : Node} {cl cr tail : Li
     rcases SM.bind_cases hrest with ⟨e, hre, rfl⟩ | ⟨b, σ2, hrv, hrest2⟩
     · exact hr _ _ scs σ1 _ _ hcode.left.right hsc hre
     · refine Reach.runs (hr _ _ scs σ1 _ _ hcode.left.right hsc hrv) ?_
-      exact (htail _ st scs σ2 a b res σ' (hcode.right.cast (by ip_arith)) hrest2).to_ip (by ip_arith)
-
-/-- the shape of `htail` -/
-def TailOK (c : Cfg) (P : Prog) (op : String) (l r : Node) (tail : List LInstr) : Prop :=
-  ∀ (k : Nat) (st : List Val) (scs : List Scope) (σ : SState) (a b : Val) (res : R Val) (σ' : SState),
-    CodeAt P k tail → binTail (specOf c) op l r a b σ = (res, σ') →
-    Runs c P (vm k (b :: a :: st) scs σ c.budget) (outcome res (k + lsize tail) st scs σ' c.budget)
+      exact (htail _ st scs σ2 a b res σ' (hcode.right.cast (by ip_arith)) hrest2 (hbl.of hev0)).to_ip (by ip_arith)
 
 theorem match_eqInt (a b : Val) :
     (match a, b with
@@ -102,19 +101,19 @@ theorem binTail_eq (sc : SCfg) (l r : Node) (a b : Val) :
        else pure (.bool (equalV a b))) := by
   rw [← match_eqInt, ← match_eqStr]; rfl
 
-theorem tail_eq {l r : Node} {loc : Loc} : TailOK c P "==" l r [li loc (eqOpOf l r)] := by
-  intro k st scs σ a b res σ' hc hev
+theorem tail_eq {l r : Node} {loc : Loc} : TailOK c P loc "==" l r [li loc (eqOpOf l r)] := by
+  intro k st scs σ a b res σ' hc hev hb
   rw [binTail_eq] at hev
   unfold eqOpOf at hc ⊢
   by_cases hi : (l.kd == r.kd && l.kd == .num .int) = true
   · simp only [hi, if_true, SM.lift_apply] at hev hc ⊢
     obtain ⟨rfl, rfl⟩ := Prod.mk.inj hev
-    exact (Runs.equalInt hc).to_ip (by ip_arith)
+    exact (Runs.equalInt hc hb).to_ip (by ip_arith)
   · simp only [hi, if_false, Bool.false_eq_true] at hev hc ⊢
     by_cases hs : (l.kd == r.kd && l.kd == .string) = true
     · simp only [hs, if_true, SM.lift_apply] at hev hc ⊢
       obtain ⟨rfl, rfl⟩ := Prod.mk.inj hev
-      exact (Runs.equalString hc).to_ip (by ip_arith)
+      exact (Runs.equalString hc hb).to_ip (by ip_arith)
     · simp only [hs, if_false, Bool.false_eq_true, SM.pure_apply] at hev hc ⊢
       obtain ⟨rfl, rfl⟩ := Prod.mk.inj hev
       exact Runs.equal hc (Reach.refl _ |>.to_ip (by ip_arith))
@@ -165,31 +164,35 @@ theorem binTail_range (sc : SCfg) (l r : Node) (a b : Val) (σ : SState) :
       · simp only [hb, ↓reduceIte]
       · simp only [hb, ↓reduceIte]; rfl
 
-theorem tail_ne {l r : Node} {loc : Loc} : TailOK c P "!=" l r [li loc .equal, li loc .not_] := by
-  intro k st scs σ a b res σ' hc hev
+theorem tail_ne {l r : Node} {loc : Loc} : TailOK c P loc "!=" l r [li loc .equal, li loc .not_] := by
+  intro k st scs σ a b res σ' hc hev hb
   rw [binTail_ne, SM.pure_apply] at hev
   obtain ⟨rfl, rfl⟩ := Prod.mk.inj hev
-  exact Runs.equal hc ((Runs.not_ hc.tail1).to_ip (by ip_arith))
+  exact Runs.equal hc ((Runs.not_ hc.tail1 (fun e he => by cases he)).to_ip (by ip_arith))
 
-theorem tail_in {l r : Node} {loc : Loc} : TailOK c P "in" l r [li loc .in_] := by
-  intro k st scs σ a b res σ' hc hev
+theorem tail_in {l r : Node} {loc : Loc} : TailOK c P loc "in" l r [li loc .in_] := by
+  intro k st scs σ a b res σ' hc hev hb
   rw [binTail_in, SM.bind_apply, SM.lift_apply] at hev
-  refine ((Runs.in_ hc).to_ip (ip' := k + lsize [li loc .in_]) (by ip_arith)).of_eq ?_
+  have hb' : RBlame P loc (inV a b) := by
+    intro e he; rw [he] at hev; obtain ⟨rfl, rfl⟩ := Prod.mk.inj hev; exact hb e rfl
+  refine ((Runs.in_ hc hb').to_ip (ip' := k + lsize [li loc .in_]) (by ip_arith)).of_eq ?_
   cases hin : inV a b with
   | ok v => rw [hin] at hev; obtain ⟨rfl, rfl⟩ := Prod.mk.inj hev; rfl
   | error e => rw [hin] at hev; obtain ⟨rfl, rfl⟩ := Prod.mk.inj hev; rfl
 
-theorem tail_notin {l r : Node} {loc : Loc} : TailOK c P "not in" l r [li loc .in_, li loc .not_] := by
-  intro k st scs σ a b res σ' hc hev
+theorem tail_notin {l r : Node} {loc : Loc} : TailOK c P loc "not in" l r [li loc .in_, li loc .not_] := by
+  intro k st scs σ a b res σ' hc hev hb
   rw [binTail_notin, SM.bind_apply, SM.lift_apply] at hev
-  refine Runs.andThen (Runs.in_ hc) ?_ ?_
+  have hb' : RBlame P loc (inV a b) := by
+    intro e he; rw [he] at hev; obtain ⟨rfl, rfl⟩ := Prod.mk.inj hev; exact hb e rfl
+  refine Runs.andThen (Runs.in_ hc hb') ?_ ?_
   · intro v hv
     cases hin : inV a b with
     | error e => rw [hin] at hv; cases hv
     | ok bb =>
       rw [hin] at hv hev; cases hv
       obtain ⟨rfl, rfl⟩ := Prod.mk.inj hev
-      exact (Runs.not_ hc.tail1).to_ip (by ip_arith)
+      exact (Runs.not_ hc.tail1 (fun e he => by cases he)).to_ip (by ip_arith)
   · intro e he
     cases hin : inV a b with
     | ok bb => rw [hin] at he; cases he
@@ -198,42 +201,43 @@ theorem tail_notin {l r : Node} {loc : Loc} : TailOK c P "not in" l r [li loc .i
       obtain ⟨rfl, rfl⟩ := Prod.mk.inj hev
       rfl
 
-theorem tail_pow {l r : Node} {loc : Loc} : TailOK c P "**" l r [li loc .exponent] := by
-  intro k st scs σ a b res σ' hc hev
+theorem tail_pow {l r : Node} {loc : Loc} : TailOK c P loc "**" l r [li loc .exponent] := by
+  intro k st scs σ a b res σ' hc hev hb
   rw [binTail_pow, SM.lift_apply] at hev
   obtain ⟨rfl, rfl⟩ := Prod.mk.inj hev
-  exact (Runs.exponent hc).to_ip (by ip_arith)
+  exact (Runs.exponent hc hb).to_ip (by ip_arith)
 
 theorem tail_strop {l r : Node} {loc : Loc} {op : String} {o : Op} {f : String → String → Bool}
-    (hb : ∀ a b, binTail (specOf c) op l r a b = SM.lift (strOp f a b))
+    (hbt : ∀ a b, binTail (specOf c) op l r a b = SM.lift (strOp f a b))
     (ho : (o = .contains ∧ f = strContains) ∨ (o = .startsWith ∧ f = strHasPrefix) ∨ (o = .endsWith ∧ f = strHasSuffix)) :
-    TailOK c P op l r [li loc o] := by
-  intro k st scs σ a b res σ' hc hev
-  rw [hb, SM.lift_apply] at hev
+    TailOK c P loc op l r [li loc o] := by
+  intro k st scs σ a b res σ' hc hev hb
+  rw [hbt, SM.lift_apply] at hev
   obtain ⟨rfl, rfl⟩ := Prod.mk.inj hev
   have hsz : lsize [li loc o] = 1 := by rcases ho with ⟨rfl, _⟩ | ⟨rfl, _⟩ | ⟨rfl, _⟩ <;> rfl
-  exact (Runs.strop hc ho).to_ip (by rw [hsz])
+  exact (Runs.strop hc ho hb).to_ip (by rw [hsz])
 
 theorem tail_arith {l r : Node} {loc : Loc} {op : String} {o : Op} {hlp : Helper}
-    (hb : ∀ a b, binTail (specOf c) op l r a b = SM.lift (binHelper hlp a b)) (ho : binOpOf o = some hlp) :
-    TailOK c P op l r [li loc o] := by
-  intro k st scs σ a b res σ' hc hev
-  rw [hb, SM.lift_apply] at hev
+    (hbt : ∀ a b, binTail (specOf c) op l r a b = SM.lift (binHelper hlp a b)) (ho : binOpOf o = some hlp) :
+    TailOK c P loc op l r [li loc o] := by
+  intro k st scs σ a b res σ' hc hev hb
+  rw [hbt, SM.lift_apply] at hev
   obtain ⟨rfl, rfl⟩ := Prod.mk.inj hev
   have hsz : lsize [li loc o] = 1 := by cases o <;> first | rfl | (simp [binOpOf] at ho)
-  exact (Runs.binop hc ho).to_ip (by rw [hsz])
+  exact (Runs.binop hc ho hb).to_ip (by rw [hsz])
 
-theorem tail_range {l r : Node} {loc : Loc} : TailOK c P ".." l r [li loc .range] := by
-  intro k st scs σ a b res σ' hc hev
+theorem tail_range {l r : Node} {loc : Loc} : TailOK c P loc ".." l r [li loc .range] := by
+  intro k st scs σ a b res σ' hc hev hb
   rw [binTail_range] at hev
-  have := (Runs.range (c := c) (st := st) (scs := scs) (σ := σ) (lim := c.budget) (x := a) (y := b) hc)
+  have := (Runs.range (c := c) (st := st) (scs := scs) (σ := σ) (lim := c.budget) (x := a) (y := b) hc
+    (by rw [show rangeR c.defects.rangeSizeSigned c.budget a b σ = (res, σ') from hev]; exact hb))
   rw [show rangeR c.defects.rangeSizeSigned c.budget a b σ = (res, σ') from hev] at this
   exact this.to_ip (by ip_arith)
 
 /-- every operator of `binSimpleOp` is strict and its opcodes compute the Spec's result -/
 theorem binSimple_tail {l r : Node} {loc : Loc} {op : String} {ops : List Op} (h : binSimpleOp op = some ops) :
     (op == "and" || op == "&&") = false ∧ (op == "or" || op == "||") = false ∧ (op == "==") = false ∧
-    TailOK c P op l r (ops.map (fun o => li loc o)) := by
+    TailOK c P loc op l r (ops.map (fun o => li loc o)) := by
   unfold binSimpleOp at h
   split at h <;> first | (cases h; done) | skip
   all_goals (cases h; refine ⟨by decide, by decide, by decide, ?_⟩)
@@ -271,9 +275,11 @@ theorem eval_or (sc : SCfg) {m : Meta} {op : String} {l r : Node} (h1 : (op == "
   rw [eval_binary]; simp only [h1, h, if_true, Bool.false_eq_true, if_false]
 
 theorem sim_and {m : Meta} {op : String} {l r : Node} {cl cr : List LInstr}
-    (hl : Sim c P ctx l cl) (hr : Sim c P ctx r cr) (hop : (op == "and" || op == "&&") = true) :
+    (hl : Sim c P ctx l cl) (hr : Sim c P ctx r cr) (hop : (op == "and" || op == "&&") = true)
+    (hbl : BlameOK c P (.binary m op l r)) :
     Sim c P ctx (.binary m op l r) (cl ++ [li m.loc .jumpIfFalse (1 + lsize cr), li m.loc .pop] ++ cr) := by
   intro k st scs σ res σ' hcode hsc hev
+  have hev0 := hev
   rw [eval_and _ hop] at hev
   rcases SM.bind_cases hev with ⟨e, hle, rfl⟩ | ⟨a, σ1, hlv, hrest⟩
   · exact hl k st scs σ _ _ hcode.left.left hsc hle
@@ -293,13 +299,14 @@ theorem sim_and {m : Meta} {op : String} {l r : Node} {cl cr : List LInstr}
     · have hnb : ∀ bb, a ≠ .bool bb := fun bb h => hb ⟨bb, h⟩
       rw [asBool_other hnb, SM.bind_apply, SM.fail_apply] at hrest
       obtain ⟨rfl, rfl⟩ := Prod.mk.inj hrest
-      exact Runs.jumpIf_err (.inr rfl) hj hnb
+      exact Runs.jumpIf_err (.inr rfl) hj hnb (hbl _ _ _ _ hev0)
 
 theorem sim_or {m : Meta} {op : String} {l r : Node} {cl cr : List LInstr}
     (hl : Sim c P ctx l cl) (hr : Sim c P ctx r cr) (hna : (op == "and" || op == "&&") = false)
-    (hop : (op == "or" || op == "||") = true) :
+    (hop : (op == "or" || op == "||") = true) (hbl : BlameOK c P (.binary m op l r)) :
     Sim c P ctx (.binary m op l r) (cl ++ [li m.loc .jumpIfTrue (1 + lsize cr), li m.loc .pop] ++ cr) := by
   intro k st scs σ res σ' hcode hsc hev
+  have hev0 := hev
   rw [eval_or _ hna hop] at hev
   rcases SM.bind_cases hev with ⟨e, hle, rfl⟩ | ⟨a, σ1, hlv, hrest⟩
   · exact hl k st scs σ _ _ hcode.left.left hsc hle
@@ -319,6 +326,6 @@ theorem sim_or {m : Meta} {op : String} {l r : Node} {cl cr : List LInstr}
     · have hnb : ∀ bb, a ≠ .bool bb := fun bb h => hb ⟨bb, h⟩
       rw [asBool_other hnb, SM.bind_apply, SM.fail_apply] at hrest
       obtain ⟨rfl, rfl⟩ := Prod.mk.inj hrest
-      exact Runs.jumpIf_err (.inl rfl) hj hnb
+      exact Runs.jumpIf_err (.inl rfl) hj hnb (hbl _ _ _ _ hev0)
 
 end ExprModel.Refine
